@@ -15,10 +15,13 @@ package proto
 //@ reads fields(Append)
 //@ ensures x != nil ==> result == x.Entry
 
-//@ func OxiaLogReplication_SendSnapshotServer.Recv
+// A snapshot stream: how many chunks have been received on it and the term the last one
+// carried are ghost state of the stream.
+//@ func OxiaLogReplication_SendSnapshotServer.Recv(recv) (chunk, err)
 //@ trusted
-//@ pure
-//@ nondet
+//@ modifies ghost(chunks, recv), ghost(lastChunkTerm, recv)
+//@ ensures err == nil && chunk != nil ==> ghost(chunks, recv) == old(ghost(chunks, recv)) + 1 && ghost(lastChunkTerm, recv) == chunk.Term
+//@ ensures err != nil || chunk == nil ==> ghost(chunks, recv) == old(ghost(chunks, recv)) && ghost(lastChunkTerm, recv) == old(ghost(lastChunkTerm, recv))
 
 //@ func OxiaLogReplication_ReplicateServer.Context
 //@ trusted
